@@ -422,14 +422,78 @@ func runC02(c *Ctx) {
 				}
 				c.Cond(bad == "", "C02.O14", rl.name+": drained before the hang-up close", c.Pos(rl.read), "bound lifted under the hang-up flag, close after the loop", bad)
 			}
-			// async dispatch
+			// async dispatch: the hang-up is handed to the read task, which drains and closes
+			isHungupAddr := func(v ssa.Value) bool {
+				fa, ok := ir.Root(v).(*ssa.FieldAddr)
+				return ok && c.P.FieldKey(fa) == "nbio.Conn.hungup"
+			}
 			for _, cs := range c.P.CallsNamed(rw, "(*nbio.Conn).AsyncRead") {
-				if fi.CanReach(cs.In, hupClose) {
-					c.Bad("C02.O14", "(*nbio.poller).readWriteLoop: hang-up close after the async read task", c.Pos(cs.In),
-						"in asynchronous-read mode the poller schedules the read task and then closes the connection on the same hang-up event ("+c.Pos(hupClose)+") without waiting for the task: bytes the peer sent before it closed can be lost")
-				} else {
-					c.OK("C02.O14", "(*nbio.poller).readWriteLoop: hang-up close after the async read task", c.Pos(cs.In), "the close is not reachable from the dispatch")
+				key := "(*nbio.poller).readWriteLoop: hang-up close after the async read task"
+				if !fi.CanReach(cs.In, hupClose) {
+					c.OK("C02.O14", key, c.Pos(cs.In), "the close is not reachable from the dispatch")
+					continue
 				}
+				// (a) the poller does not close on this event itself: the hang-up edge behind the dispatch leaves the event
+				handed := false
+				for _, jf := range fi.Ifs() {
+					if !fi.Dominates(cs.In, jf) {
+						continue
+					}
+					for k := 0; k < 2; k++ {
+						cnd, t := ir.StripNot(jf.Cond, k == 0)
+						if !isHupFact(ir.Fact{If: jf, Cond: cnd, Truth: t}) {
+							continue
+						}
+						vis, _ := fi.ReachFromEdge(jf, k, func(in ssa.Instruction) bool { return c.isCallTo(in, "(*nbio.poller).getConn") })
+						if !vis[hupClose] {
+							handed = true
+						}
+					}
+				}
+				// (b) the flag is set under the hang-up fact before the dispatch
+				stored := false
+				for _, st := range c.P.CallsNamed(rw, "sync/atomic.StoreInt32") {
+					if isHungupAddr(st.Common.Args[0]) && fi.HasFact(st.In, isHupFact) && fi.CanReach(st.In, cs.In) {
+						stored = true
+					}
+				}
+				// (c) the task looks at the flag before it reads, and closes behind it after the reads
+				taskOK := true
+				nTasks := 0
+				if ar := c.P.Func("(*nbio.Conn).AsyncRead"); ar != nil {
+					for _, g := range ir.Closures(ar) {
+						reads := c.P.CallsNamed(g, "(*nbio.Conn).ReadAndGetConn")
+						if len(reads) == 0 {
+							continue
+						}
+						nTasks++
+						gi := c.P.Info(g)
+						var load ssa.Value
+						for _, ld := range c.P.CallsNamed(g, "sync/atomic.LoadInt32") {
+							if isHungupAddr(ld.Common.Args[0]) && gi.CanReach(ld.In, reads[0].In) {
+								// before the reads of this round: not reachable from the read without going round the outer loop
+								load = ld.Value()
+							}
+						}
+						if load == nil {
+							taskOK = false
+							continue
+						}
+						dep := c.dependsOn(g, load)
+						closes := false
+						for _, cl := range c.P.CallsNamed(g, "(*nbio.Conn).closeWithError") {
+							if gi.CanReach(reads[0].In, cl.In) && gi.HasFact(cl.In, func(ft ir.Fact) bool { return dep[ft.Cond] || dep[ir.Resolve(ft.Cond)] }) {
+								closes = true
+							}
+						}
+						if !closes {
+							taskOK = false
+						}
+					}
+				}
+				ok := handed && stored && taskOK && nTasks >= 2
+				c.Cond(ok, "C02.O14", key, c.Pos(cs.In), "the hang-up is handed to the read task: flag stored before the dispatch, no poller close on this event, the task looks at the flag before it reads and closes behind it",
+					"in asynchronous-read mode the poller schedules the read task and then closes the connection on the same hang-up event ("+c.Pos(hupClose)+") without waiting for the task: bytes the peer sent before it closed can be lost")
 			}
 		}
 	}
